@@ -395,7 +395,9 @@ pub fn c17(em: &mut Emit, thorough: bool, seed: u64) {
     for _ in 0..(n / 3) {
         aes.push((Some(malformed_ae(&mut rng)), None, false));
     }
-    let payload: Vec<u8> = b"hello, hello, hello, streaming world ".repeat(8);
+    // (every third case: a payload that is itself a gzip document — it begins with the gzip magic)
+    let plain_payload: Vec<u8> = b"hello, hello, hello, streaming world ".repeat(8);
+    let gz_payload: Vec<u8> = [&[0x1f, 0x8b, 0x08, 0x00][..], &plain_payload[..]].concat();
     let big: Vec<u8> = {
         let mut x = 0x2545_F491_4F6C_DD1Du64;
         (0..100_000).map(|_| { x ^= x << 13; x ^= x >> 7; x ^= x << 17; x as u8 }).collect()
@@ -432,6 +434,7 @@ pub fn c17(em: &mut Emit, thorough: bool, seed: u64) {
                         dress: next_dress(),
                     };
                     let calls = call_sequence(chunk, level, case_no);
+                    let payload: &Vec<u8> = if case_no % 3 == 2 { &gz_payload } else { &plain_payload };
                     let line = format!(
                         "SBUILD head={} ae={} calls={} dress={}",
                         if *m == "HEAD" { 1 } else { 0 },
